@@ -40,24 +40,30 @@ ASSUMPTIONS = [
     "migen's tracer name tables are cleared between cases (they grow without bound and are searched linearly; names only)",
 ]
 FLOORS = {
-    "quick": {"histories_bus": 1500, "histories_loc": 1500, "histories_platform": 800, "requests_accepted": 20000, "requests_rejected": 5000,
-              "inv_bus_regions_disjoint": 20000, "post_add_region": 6000, "post_alloc_region": 1500, "auto_regions_accepted": 1000,
-              "finalize_accepted": 400, "finalize_rejected": 100, "post_region_decoder": 1000, "decoder_evaluations": 50000,
-              "cross_slave_addresses": 20000, "inv_locs_in_range": 20000, "post_loc_add": 8000, "post_loc_alloc": 3000,
-              "loc_boundary_requests": 3000, "inv_cm_available_xor_matched": 10000, "post_cm_request": 5000, "post_cm_lookup": 2000,
-              "constraint_entries_checked": 3000, "n_bus_configs": 12, "n_boundary_kinds": 12, "n_reject_kinds": 3},
-    "thorough": {"histories_bus": 20000, "histories_loc": 20000, "histories_platform": 10000, "requests_accepted": 300000,
-                 "requests_rejected": 80000, "inv_bus_regions_disjoint": 300000, "post_add_region": 90000, "post_alloc_region": 20000,
-                 "auto_regions_accepted": 15000, "finalize_accepted": 6000, "finalize_rejected": 1500, "post_region_decoder": 15000,
-                 "decoder_evaluations": 800000, "cross_slave_addresses": 300000, "inv_locs_in_range": 300000, "post_loc_add": 120000,
-                 "post_loc_alloc": 40000, "loc_boundary_requests": 40000, "inv_cm_available_xor_matched": 150000,
-                 "post_cm_request": 70000, "post_cm_lookup": 30000, "constraint_entries_checked": 40000, "n_bus_configs": 20,
-                 "n_boundary_kinds": 14, "n_reject_kinds": 3},
+    "quick": {"histories_bus": 2000, "histories_loc": 2000, "histories_platform": 1000, "requests_accepted": 40000, "requests_rejected": 18000,
+              "inv_bus_regions_disjoint": 25000, "inv_bus_io_regions_disjoint": 25000, "post_add_region": 7000, "post_alloc_region": 2800,
+              "post_add_slave": 2700, "post_add_master": 1400, "auto_regions_accepted": 2000, "fixed_regions_accepted": 3000,
+              "finalize_accepted": 1200, "finalize_rejected": 60, "post_region_decoder": 1500, "decoder_evaluations": 150000,
+              "cross_slave_addresses": 30000, "inv_locs_in_range": 40000, "inv_locs_unique": 40000, "post_loc_add": 12000,
+              "post_loc_alloc": 11000, "loc_boundary_requests": 4000, "loc_last_legal_index_granted": 400, "loc_exhaustion_rejected": 1000,
+              "inv_cm_available_xor_matched": 20000, "post_cm_request": 5000, "post_cm_lookup": 2000, "lookups_found": 1500,
+              "constraint_entries_checked": 6000, "soc_finalized": 1, "n_bus_configs": 20, "n_boundary_kinds": 40, "n_reject_kinds": 10,
+              "n_interconnects": 8, "n_anchor_lines_hit": 280},
+    "thorough": {"histories_bus": 30000, "histories_loc": 28000, "histories_platform": 15000, "requests_accepted": 500000,
+                 "requests_rejected": 220000, "inv_bus_regions_disjoint": 330000, "inv_bus_io_regions_disjoint": 330000,
+                 "post_add_region": 90000, "post_alloc_region": 35000, "post_add_slave": 35000, "post_add_master": 18000,
+                 "auto_regions_accepted": 27000, "fixed_regions_accepted": 40000, "finalize_accepted": 15000, "finalize_rejected": 1000,
+                 "post_region_decoder": 19000, "decoder_evaluations": 1900000, "cross_slave_addresses": 400000, "inv_locs_in_range": 490000,
+                 "inv_locs_unique": 490000, "post_loc_add": 150000, "post_loc_alloc": 140000, "loc_boundary_requests": 50000,
+                 "loc_last_legal_index_granted": 6000, "loc_exhaustion_rejected": 16000, "inv_cm_available_xor_matched": 260000,
+                 "post_cm_request": 60000, "post_cm_lookup": 27000, "lookups_found": 20000, "constraint_entries_checked": 85000,
+                 "soc_finalized": 10, "n_bus_configs": 30, "n_boundary_kinds": 45, "n_reject_kinds": 10, "n_interconnects": 10,
+                 "n_anchor_lines_hit": 300},
 }
 SHARD_TIMEOUT = {"quick": 900, "thorough": 3000}
 N_SAMPLES = 8
 
-N_CASES = {"quick": {"bus": 2000, "bus-subword": 250, "bus-io-odd": 250, "bus-p2p": 150, "loc": 1800, "loc-edge": 600, "platform": 1100, "platform-override": 200, "soc": 6},
+N_CASES = {"quick": {"bus": 2000, "bus-subword": 250, "bus-io-odd": 250, "bus-p2p": 150, "loc": 1800, "loc-edge": 600, "platform": 1100, "platform-override": 200, "soc": 8},
            "thorough": {"bus": 27000, "bus-subword": 3000, "bus-io-odd": 3000, "bus-p2p": 1500, "loc": 22000, "loc-edge": 8000, "platform": 14000, "platform-override": 2000, "soc": 48}}
 N_SHARDS = {"quick": 16, "thorough": 64}
 
@@ -710,12 +716,7 @@ def finalize_bus(col, M, h, bus, params, cls):
                           "address 0x%x selects %r, windows say %r" % (a, sel, exp),
                           {"address": hex(a), "selected": sel, "expected": exp, "params": params, "history": h.ops[-24:]})
             return "violated"
-    _flush_eval(col)
     return "accepted:%s:%d-decoders" % (icname, len(decs))
-
-
-def _flush_eval(col):
-    pass
 
 
 # ------------------------------------------------------------------------------------------------
